@@ -358,6 +358,56 @@ class ReduceNativeOnly(Contract):
         yield "operand-untouched", _untouched(S, env, rank)
 
 
+class ReduceInfNative(ReduceNativeOnly):
+    """BOUNDED STAND-IN ONLY (never counted as proved).  The same reductions (median; ptp / all / any with skipna=True) on data
+    that holds an INFINITE value next to the NaNs: skipna ignores NaNs as missing values -- infinities are values (a range
+    with an infinite end is infinite, any([inf, 0, nan]) is True).  One cell of the family's data is replaced by +inf or
+    -inf.  [C08]"""
+    target = "dimarray.core.transform:apply_along_axis"
+    props = ("C08",)
+    native_only = True
+
+    def cases(self, tier):
+        for func, skipna in (("median", True), ("ptp", True), ("all", True), ("any", True), ("median", False)):
+            for rank in (1, 2):
+                for axis in ["none"] + ["name%d" % d for d in range(rank)]:
+                    for sign in ("+inf", "-inf"):
+                        yield {"name": "%s-%s-r%d-%s-%s" % (func, "skipna" if skipna else "plain", rank, axis, sign), "func": func, "skipna": skipna, "rank": rank,
+                               "axis": axis, "sign": sign}
+
+    def setup(self, S, case):
+        env = _setup(S, case["rank"])
+        env["p"] = S.int("p")
+        return env
+
+    def call(self, fn, env):
+        import numpy as np
+        S, case = env["S"], env["case"]
+        data = np.array(env["data"], dtype=float)
+        if data.size:
+            data.reshape(-1)[int(env["p"]) % data.size] = np.inf if case["sign"] == "+inf" else -np.inf
+        arr = S.da.DimArray(data.copy(), axes=[("x%d" % d, np.asarray(L).copy()) for d, L in enumerate(env["labels"])])
+        arr.attrs.update(env["attrs0"])
+        env["arr2"], env["data2"] = arr, data
+        a = case["axis"]
+        ax = None if a == "none" else "x%s" % a[-1]
+        return getattr(arr, case["func"])(axis=ax, skipna=case["skipna"])
+
+    def post(self, S, case, env, result):
+        import numpy as np
+        data, rank = env["data2"], case["rank"]
+        a = case["axis"]
+        d = None if a == "none" else int(a[-1])
+        ref = np.asarray(self._reference(case, data, d))
+        got = np.asarray(result.values if S.is_dimarray(result) else result)
+
+        def same(x, y):
+            x, y = np.asarray(x, dtype=float), np.asarray(y, dtype=float)
+            return x.shape == y.shape and bool(np.all((x == y) | (np.isnan(x) & np.isnan(y))))
+        yield "values-equal-the-reference", same(got, ref)
+        yield "operand-untouched", same(env["arr2"].values, data)
+
+
 class DiffNative(Contract):
     """BOUNDED STAND-IN ONLY (never counted as proved).  diff for every order n in 1..3 with BOTH keepaxis settings -- the
     symbolic contract Diff covers keepaxis only for n = 1, because n >= 2 re-differences a NaN-padded array and NumPy's
